@@ -25,18 +25,23 @@ CRASH_SIGNALS = (-4, -6, -7, -8, -11, 132, 134, 135, 136, 139)
 
 # ---------------------------------------------------------------- configurations
 # StartTicks are indices into MC_Demo!StartTick (1: 0, 2: 7, 3: -5, 4: 2147483600, 5: -2^31);
+# wide: message classes by varint width of the 4-byte groups (vh-demo: widx = (width - 1) * 3 + variant + 1; variant 0 one
+# constant value at the largest length the writer accepts, 1 pseudo-random values at the largest accepted length, 2 1000 groups).
+# MsgIds 1..6: short game messages; 100000 + n: a broadcast of n bytes (120000: 20 000 bytes = 5 000 groups of 5 packed bytes; 140000: 40 000 bytes).
 # HiGaps are indices into MC_DemoHi!Gap (1: 0, 2: 1, 3: 125, 4: 250, 5: 251, 6: -3, 7: 2147483000).
 
 LO = {
     "quick": dict(MaxChunks=3, Headers=[1, 2, 3, 4], StartTicks=[1, 2], Gaps=[1, 31, 32, 250, 251],
-                  sizes=[29, 30, 255, 256], msg=[(0, 0), (29, 1), (30, 2), (255, 3), (256, 0), (30, 0), (29, 3), (256, 1)]),
+                  sizes=[29, 30, 255, 256], msg=[(0, 0), (29, 1), (30, 2), (255, 3), (256, 0), (30, 0), (29, 3), (256, 1)],
+                  wide=[1, 4, 7, 10, 13, 14]),
     "thorough": dict(MaxChunks=4, Headers=[1, 2, 3, 4], StartTicks=[1, 3, 4, 5], Gaps=[1, 31, 32, 250, 251],
                      sizes=[29, 30, 255, 256, 65535],
-                     msg=[(0, 0), (29, 0), (29, 3), (30, 1), (30, 2), (255, 2), (255, 3), (256, 0), (256, 1), (65535, 1)]),
+                     msg=[(0, 0), (29, 0), (29, 3), (30, 1), (30, 2), (255, 2), (255, 3), (256, 0), (256, 1), (65535, 1)],
+                     wide=list(range(1, 16))),
 }
 HI = {
-    "quick": dict(MaxCalls=4, HiGaps=[1, 2, 3, 5], WorldIds=[1, 2, 5, 6, 8], MsgIds=[1, 3]),
-    "thorough": dict(MaxCalls=4, HiGaps=[1, 2, 3, 4, 5, 6, 7], WorldIds=[1, 2, 5, 6, 7, 8], MsgIds=[1, 2, 3]),
+    "quick": dict(MaxCalls=4, HiGaps=[1, 2, 3, 5], WorldIds=[1, 2, 5, 6, 8], MsgIds=[1, 3, 120000]),
+    "thorough": dict(MaxCalls=4, HiGaps=[1, 2, 3, 4, 5, 6, 7], WorldIds=[1, 2, 5, 6, 7, 8], MsgIds=[1, 2, 3, 140000]),
 }
 LO_INV = "INVARIANTS RoundTrip HeaderSame TickSync MarkerRule SizeRule\nPROPERTIES StepRoundTrip HeaderStep\n"
 HI_INV = "VIEW View\nINVARIANTS SameObjects ReaderInSync TicksIncrease NonNegative DeltaNearKeyframe\nPROPERTIES RefusedInert StepSame\n"
@@ -66,17 +71,21 @@ def _classes(ctx, bins, tier):
     missing = [s for s in LO[tier]["sizes"] if s not in d["snap"]]
     if missing:
         ctx.note("payload sizes not realisable: %s" % missing)
+    wide = [16 * (4 * w["csize"] + w["m4"]) + w["widx"] for w in d.get("wide", []) if w["widx"] in LO[tier]["wide"] and w["groups"] > 0]
+    if len(wide) != len(LO[tier]["wide"]):
+        raise core.ToolError("message width classes not realisable: %s" % d.get("wide"))
     ctx.coverage["payload_classes"] = {"snapshot_sizes": snap, "message_codes(4*size+len%4)": sorted(set(msg)),
+                                       "message_width_classes": [w for w in d.get("wide", []) if w["widx"] in LO[tier]["wide"]],
                                        "empty_payload_compressed_size": d["empty_snap"],
                                        "achieved": d["achieved"][:60]}
-    return snap, sorted(set(msg))
+    return snap, sorted(set(msg)), sorted(wide)
 
 
-def _write_cfgs(ctx, tier, snap, msg):
+def _write_cfgs(ctx, tier, snap, msg, wide):
     lo, hi = LO[tier], HI[tier]
     lo_c = ("SPECIFICATION Spec\nCONSTANTS\n  MaxChunks = %d\n  Headers = %s\n  StartTicks = %s\n  Gaps = %s\n"
-            "  SnapSizes = %s\n  MsgCodes = %s\nCHECK_DEADLOCK FALSE\n" % (
-                lo["MaxChunks"], _set(lo["Headers"]), _set(lo["StartTicks"]), _set(lo["Gaps"]), _set(snap), _set(msg)))
+            "  SnapSizes = %s\n  MsgCodes = %s\n  WideCodes = %s\nCHECK_DEADLOCK FALSE\n" % (
+                lo["MaxChunks"], _set(lo["Headers"]), _set(lo["StartTicks"]), _set(lo["Gaps"]), _set(snap), _set(msg), _set(wide)))
     hi_c = ("SPECIFICATION Spec\nCONSTANTS\n  MaxCalls = %d\n  HiGaps = %s\n  WorldIds = %s\n  MsgIds = %s\nCHECK_DEADLOCK FALSE\n" % (
         hi["MaxCalls"], _set(hi["HiGaps"]), _set(hi["WorldIds"]), _set(hi["MsgIds"])))
     paths = {}
@@ -278,12 +287,13 @@ def run(ctx):
     ctx.coverage["rule"] = (
         "direction A: every path through the TLC-generated graphs of MC_Demo (header variants; <= MaxChunks chunks over "
         "tick gaps on both sides of 31, key-frame flags, compressed payload sizes on both sides of 29/30 and 255/256 and the "
-        "maximum, empty payloads, message lengths mod 4) and MC_DemoHi (<= MaxCalls write_snap / write_msg calls over tick gaps "
+        "maximum, empty payloads, message lengths mod 4, messages by varint width 1..5 of their 4-byte groups at the largest "
+        "length the writer accepts) and MC_DemoHi (<= MaxCalls write_snap / write_msg calls over tick gaps "
         "on both sides of 250, refused ticks, worlds whose objects appear / change / vanish), each path executed once on "
         "the real writer and read back with the real readers; distinct by construction; counted non-trivial when it has at "
         "least two calls after the header; evaluations additionally counts the events of the recorded random traces")
-    snap, msg = _classes(ctx, bins, tier)
-    cfgs = _write_cfgs(ctx, tier, snap, msg)
+    snap, msg, wide = _classes(ctx, bins, tier)
+    cfgs = _write_cfgs(ctx, tier, snap, msg, wide)
     # 1. model checking
     for name, module, label in (("MC_lo", "MC_Demo.tla", "MC_Demo: RoundTrip HeaderSame TickSync MarkerRule SizeRule StepRoundTrip HeaderStep"),
                                 ("MC_hi", "MC_DemoHi.tla", "MC_DemoHi: SameObjects ReaderInSync TicksIncrease NonNegative DeltaNearKeyframe RefusedInert StepSame")):
